@@ -262,7 +262,32 @@ func main() {
 	if out, err := exec.Command(sfw, "migrate", "--from", jsonDB, "--to", filepath.Join(dir, "sigs.db")).CombinedOutput(); err != nil {
 		res.Logf("C10: migrate failed: %v %s\n", err, out)
 	}
+	// hand-written entries that carry no "id" at all (the JSON backend accepts them): two copies
+	// of an indexed signature under one name. Only the JSON file gets them - the embedded
+	// database was migrated before.
+	if b, err := os.ReadFile(jsonDB); err == nil {
+		var doc map[string]any
+		if json.Unmarshal(b, &doc) == nil {
+			if sigs, ok := doc["signatures"].([]any); ok && len(sigs) > 0 {
+				for k := 0; k < 2 && k < len(sigs); k++ {
+					if m, _ := sigs[len(sigs)-1-k].(map[string]any); m != nil {
+						c := map[string]any{}
+						for key, v := range m {
+							c[key] = v
+						}
+						delete(c, "id")
+						c["name"] = "T_handwritten"
+						sigs = append(sigs, c)
+					}
+				}
+				doc["signatures"] = sigs
+				nb, _ := json.MarshalIndent(doc, "", "  ")
+				os.WriteFile(jsonDB, nb, 0o600)
+			}
+		}
+	}
 	inputs = append(inputs,
+		input{name: "check/tree-scan-json", args: []string{"check", "--no-sandbox", "--scan", "--db", jsonDB, root}, dir: root, tied: true},
 		input{name: "check/tree", args: []string{"check", "--no-sandbox", root}, dir: root, tied: true},
 		input{name: "check/tree-scan", args: []string{"check", "--no-sandbox", "--scan", "--db", copyDB(dir, "sigs-check.db"), root}, dir: root, tied: true},
 		input{name: "check/file", args: []string{"check", "--no-sandbox", files[0]}, dir: root},
